@@ -19,7 +19,11 @@ Definition aligned_init : gstate := mkgstate arena_init [].
 Definition al_request (c : gcfg) (size : Z) : Z := w64 (size + w64 (PTR_SIZE + g_align c - 1)).
 Definition al_addr (c : gcfg) (origp : Z) : Z := align_forward (w64 (origp + PTR_SIZE)) (g_align c).
 
+(* size > (@usize)(-1) - (@usize)(#@pointer + ALIGN - 1): the request would overflow (repair 532034f) *)
+Definition al_too_large (c : gcfg) (size : Z) : bool := size >? w64 (w64 (-1) - w64 (PTR_SIZE + g_align c - 1)).
+
 Definition aligned_alloc (c : gcfg) (s : gstate) (size : Z) : option (gstate * Z) :=
+  if al_too_large c size then Some (s, 0) else
   match arena_alloc (g_inner c) (g_arena s) (al_request c size) with
   | None => None
   | Some (a', origp) =>
